@@ -714,8 +714,15 @@ func Discharge(q *Query, timeoutMs int, seed int) SolverResult {
 		return best
 	}
 
-	// stage 0: quantifier-free hypotheses only, sliced, fast solver (most safety obligations)
 	fast := []solverDef{solverDefs[0]}
+	if q.Goal.S == "false" {
+		// reachability canary: is the whole path condition contradictory? One short run of the fast solver on the full
+		// query; anything but unsat means "not shown unreachable", which is what a canary wants
+		r := try(false, false, 2500, fast)
+		cleanupQueryFiles(base)
+		return r
+	}
+	// stage 0: quantifier-free hypotheses only, sliced, fast solver (most safety obligations)
 	qfOnly = true
 	r0 := try(true, false, 2000, fast)
 	qfOnly = false
